@@ -318,7 +318,9 @@ package redis
 //@ func newError
 //@   prop C01 C11
 //@   modifies nothing
-//@   ensures @value result != nil && fresh(result) && result.Type == 45 && str(result.Text) == s && fresh(result.Text)
+//@   ensures @value result != nil && fresh(result) && result.Type == 45 && fresh(result.Text) && len(result.Text) == len(s)
+//@   ensures @error-reply-on-one-line oneline(result)
+//@   ensures @same-text-but-line-breaks forall i int :: 0 <= i && i < len(s) ==> result.Text[i] == ite(s[i] == 10 || s[i] == 13, 32, s[i])
 
 //@ func newSimpleString
 //@   prop C01
@@ -350,8 +352,11 @@ package redis
 //@   loop 0 invariant b == r.body && b.Type == 42 && len(b.Array) >= 1 && forall k int :: 0 <= k && k <= rangeindex ==> b.Array[k].Type == 36
 
 //@ func (*redisProc).handleRequest
-//@   prop C11 C14 C20 C02
+//@   prop C11 C14 C20 C02 C01
 //@   consumes req
+//@   modifies all, handledn, lasthandled
+//@   ghostdef handledn == old(handledn) + 1 && lasthandled == req
+//@   callpre SetResponse @locally-built-replies-are-one-line oneline(arg1)
 //@   requires p != nil && req != nil && req.body != nil
 //@   requires @handlers-wellformed forall k string :: has(p.cmdHdlrs, k) ==> p.cmdHdlrs[k] != nil
 //@   callpre field:commandHandler.handle @dispatch-only-registered-commands-on-validated-requests validbody(req.body) && has(p.cmdHdlrs, lower(str(req.body.Array[0].Text)))
@@ -739,7 +744,8 @@ package redis
 //@ func (*encoder).Encode
 //@   prop C10 C01 C02
 //@   requires v != nil
-//@   modifies e.err
+//@   modifies e.err, encn, enclast
+//@   ghostdef (forall x loc :: encn[x] == old(encn[x]) + ite(x == e, 1, 0)) && (forall x loc :: enclast[x] == ite(x == e, v, old(enclast[x])))
 
 //@ func (*encoder).Flush
 //@   prop C10 C01 C02
@@ -756,3 +762,19 @@ package redis
 //@   requires u != nil && u.hkc != nil
 //@   modifies nothing
 //@   ensures @the-collectors-report sameslice(result, u.hkc.keys)
+
+// ---- C01: one reply per request, in request order -------------------------------------------------------
+
+//@ func (*session).loopRead
+//@   prop C01
+//@   requires s != nil && s.p != nil && s.dec != nil && s.processingReqs != nil
+//@   callpre handleRequest @the-request-just-decoded-is-dispatched arg1 == req && req.body == v && handledn - old(handledn) == sentcount(s.processingReqs) - old(sentcount(s.processingReqs))
+//@   callpre send:processingReqs @the-dispatched-request-is-queued-once arg0 == lasthandled && arg0.body == v && handledn - old(handledn) == sentcount(s.processingReqs) - old(sentcount(s.processingReqs)) + 1
+//@   loop 0 invariant handledn - old(handledn) == sentcount(s.processingReqs) - old(sentcount(s.processingReqs))
+
+//@ func (*session).loopWrite
+//@   prop C01
+//@   requires s != nil && s.enc != nil && s.processingReqs != nil
+//@   callpre Encode @the-reply-of-the-next-queued-request arg0 == s.enc && arg1 == req.resp && req == sentat(s.processingReqs, recvcount(s.processingReqs) - 1) && encn[s.enc] - old(encn[s.enc]) == recvcount(s.processingReqs) - old(recvcount(s.processingReqs)) - 1
+//@   loop 0 invariant encn[s.enc] - old(encn[s.enc]) == recvcount(s.processingReqs) - old(recvcount(s.processingReqs))
+//@   ensures @never-more-replies-than-requests encn[s.enc] - old(encn[s.enc]) <= recvcount(s.processingReqs) - old(recvcount(s.processingReqs))
